@@ -115,6 +115,9 @@ func init() {
 		"sync/atomic.CompareAndSwapUint64": inAtomicCAS,
 
 		"path/filepath.Join": inFilepathJoin,
+		"context.WithTimeout":  inCtxDerive,
+		"context.WithDeadline": inCtxDerive,
+		"context.WithCancel":   inCtxDerive,
 		"os.Remove":          func(ex *Exec, c *callCtx) (Value, bool) { return Iface{}, true },
 		"internal/bytealg.MakeNoZero": func(ex *Exec, c *callCtx) (Value, bool) {
 			n, ok := ex.concretize(c.s, c.args[0].(*Term), ex.lim.MaxAlloc*64, c.pend)
@@ -926,6 +929,12 @@ func inSprintf(ex *Exec, c *callCtx) (Value, bool) {
 		return ex.strConst(fmt.Sprintf(format, goArgs...)), true
 	}
 	return ex.strConst(fmt.Sprint(goArgs...)), true
+}
+
+// context.WithTimeout/WithDeadline/WithCancel: the parent context (never cancelled, no timers)
+// and a no-op cancel function.
+func inCtxDerive(ex *Exec, c *callCtx) (Value, bool) {
+	return Tuple{c.args[0], &Closure{Stub: "cancel"}}, true
 }
 
 func inFilepathJoin(ex *Exec, c *callCtx) (Value, bool) {
